@@ -146,7 +146,7 @@ class Operand(ABC):
         if not self.is_unknown():
             return self
 
-        if self.value.is_numeric() and (self.value.is_direct() or old_value.is_explicit_direct()):
+        if self.value.is_numeric() and not self.value.is_negative() and (self.value.is_direct() or old_value.is_explicit_direct()):
             return DirectOperand(self.operand_string, self.instruction, DirectNumericValue(self.value.int))
 
         return ExtendedOperand(self.operand_string, self.instruction, value=self.value)
@@ -442,7 +442,7 @@ class DirectOperand(Operand):
             raise OperandTypeError(
                 "Instruction [{}] does not support direct addressing".format(self.instruction.mnemonic)
             )
-        if self.value.is_numeric() and self.value.int > 0xFF:
+        if self.value.is_numeric() and (self.value.int > 0xFF or (self.value.is_negative() and self.value.int != 0)):
             raise OperandTypeError("[{}] does not fit in a direct (8-bit) address".format(self.operand_string))
         return CodePackage(
             op_code=NumericValue(self.instruction.mode.dir),
@@ -471,9 +471,13 @@ class ExtendedOperand(Operand):
             raise OperandTypeError(
                 "Instruction [{}] does not support extended addressing".format(self.instruction.mnemonic)
             )
+        additional = self.value
+        if self.value.is_numeric():
+            # the operand field of an extended instruction is always two bytes
+            additional = NumericValue(-self.value.int if self.value.is_negative() else self.value.int, size_hint=4)
         return CodePackage(
             op_code=NumericValue(self.instruction.mode.ext),
-            additional=self.value,
+            additional=additional,
             size=self.instruction.mode.ext_sz,
             max_size=self.instruction.mode.ext_sz,
         )
@@ -534,7 +538,7 @@ class ExtendedIndexedOperand(Operand):
             return CodePackage(
                 op_code=NumericValue(self.instruction.mode.ind),
                 post_byte=NumericValue(0x9F),
-                additional=self.value if self.value.is_negative() else NumericValue(self.value.int, size_hint=4),
+                additional=NumericValue(-self.value.int if self.value.is_negative() else self.value.int, size_hint=4),
                 size=size,
                 max_size=size,
             )
